@@ -1,5 +1,5 @@
 PROPERTY = {'id': 'C01',
- 'extra': ['bounded.c01_chunks.run', 'bounded.run_corpus.run'],
+ 'extra': ['bounded.c01_chunks.run', 'bounded.run_corpus.run', 'bounded.c01_equiv.run'],
  'contract_modules': ['doctest_example', 'util_stream', 'checker', 'doctest_part', 'runner', 'parser'],
  'functions': ['xdoctest.doctest_example:DocTest.run',
                'xdoctest.parser:DoctestParser._package_chunk#slices',
@@ -41,7 +41,8 @@ PROPERTY = {'id': 'C01',
                    'at line 0 and end at its end (loop clauses for the slices made in the loops, exit facts for the one or two made after '
                    'them), so every statement line is in exactly one part, in order; a directive forces a break before its statement, an '
                    'inline one also after it; slice_example: a part executes / shows exactly the lines [s1, s2) and starts at lineno + s1'],
-             'B': ['the real parser and DocTest.run on every sequence of 1..2 (thorough 3) statement templates plus random longer ones, each run twice, against an oracle written from the property statements: executed statements and their order, verdict, recorded exception and failing part, logged output, renderable report, stdout restored, second run identical, module global untouched (bounded/run_corpus.py)',
+             'B': ['"the same as executing the de-prompted source as an ordinary program": generated doctests (simple, compound, decorated, multi-line, async / top-level await statements, comments, expression statements; 3 prompt styles incl. unprefixed lines inside a multi-line string; indentation 0/4; prose and blank lines between groups; no wants) log exactly the stdout -- and end with exactly the bindings -- of exec of the de-prompted program (bounded/c01_equiv.py)',
+                   'the real parser and DocTest.run on every sequence of 1..2 (thorough 3) statement templates plus random longer ones, each run twice, against an oracle written from the property statements: executed statements and their order, verdict, recorded exception and failing part, logged output, renderable report, stdout restored, second run identical, module global untouched (bounded/run_corpus.py)',
                    'the real _locate_ps1_linenos / _package_chunk on every sequence of up to 3 (thorough: 4) statement shapes (decorators, PS1/PS2 '
                    'continuation lines, multi-line strings, comments, block and inline directives) x want / no want: partition, offsets, no '
                    'statement cut, directive scope, want on the last part only, statement starts (bounded/c01_chunks.py)'],
@@ -56,6 +57,7 @@ PROPERTY = {'id': 'C01',
                    'io.StringIO buffer/position model',
                    '_locate_ps1_linenos returns increasing in-range statement starts (assumed by the _package_chunk contract; exercised by the '
                    'bounded stand-in); sorted(set(xs)) of ints: strictly increasing, same members'],
-             'N/A': ['"the effect equals executing the de-prompted source as an ordinary program": needs a semantics of compile/exec and of the '
-                     'tokenizer-based statement splitter (_locate_ps1_linenos, is_balanced_statement); the slicing half of the parser is C13']},
+             'N/A': ['"the effect equals executing the de-prompted source as an ordinary program" as a PROOF: needs a semantics of compile/exec and '
+                     'of the tokenizer-based statement splitter (_locate_ps1_linenos, is_balanced_statement); decided only by the bounded '
+                     'differential stand-in above']},
  'explanation': 'C01 as event clauses on DocTest.run (compile/exec exactly once, in order, one namespace) and the capture contracts.'}
